@@ -42,6 +42,7 @@ type HOp struct {
 	Via   string      `json:"via,omitempty"`   // quote: the exported way the quote object is changed (ref.FeeQuoteEdit.Via)
 	Unit2 ref.FeeUnit `json:"unit2,omitempty"` // quote via unmarshal: new rate of the other type
 	Q    int         `json:"q,omitempty"`    // query mask after this step (0 = every query)
+	R    *ref.C11Refused `json:"r,omitempty"` // kind "refused": a call on the quote object that the library refuses
 }
 
 // HistCase is a starting transaction, a starting quote and the steps.
@@ -164,6 +165,10 @@ func hValid(op HOp) string {
 	case "sign":
 		if !validKey(op.B) {
 			return "invalid private key"
+		}
+	case "refused":
+		if op.R == nil || !ref.C11RefusedOK(*op.R) {
+			return "malformed refused call"
 		}
 	case "quote":
 		e := hEdit(op) // any positive byte denominator and non-negative satoshi amount (see quoteWide)
@@ -376,6 +381,14 @@ func (s *hState) apply(op HOp) (string, error) {
 			return "", fmt.Errorf("updating the quote object (%s): %v", op.Via, err)
 		}
 		return "quote-step:via=" + hEdit(op).Via, nil
+	case "refused": // a refused update is not an update: the model of the quote stays what it is
+		switch err := ref.C11RefusedApply(s.lq, *op.R); {
+		case errors.Is(err, ref.C11ErrAccepted):
+			return "accepted", nil
+		case err != nil:
+			return "", err
+		}
+		return ref.C11RefusedLabel(*op.R), nil
 	// ---- the object is used for something else in between ----------------------------
 	case "touch": // serialisations, id, JSON: answers are thrown away
 		_ = s.tx.Bytes()
@@ -646,6 +659,12 @@ func checkHistory(ctx *pbt.Ctx, c HistCase) error {
 		if err != nil {
 			return fmt.Errorf("step %d (%s): %v", i+1, op.Kind, err)
 		}
+		if what == "accepted" {
+			// the library did not refuse the call: what the quote holds from here on is not defined by
+			// "a refused update is not an update"; the history is not judged further
+			ctx.Label("refused-call-was-accepted:" + op.R.Kind)
+			return nil
+		}
 		if what == "skipped" {
 			lab("op-skipped")
 		} else {
@@ -668,6 +687,15 @@ func checkHistory(ctx *pbt.Ctx, c HistCase) error {
 			return fmt.Errorf("step %d, after %s (history %s): %v", i+1, hDescribe(op), hKinds(c.Ops[:i+1]), err)
 		}
 		// classes reached
+		if op.Kind == "refused" && (op.Q == 0 || op.Q&(qPaid|qEstFees|qEstPaid) != 0) {
+			lab("fee-answers-after-a-refused-call")
+			if op.R.Kind != "lookup" && op.R.Kind != "other-key" {
+				ctx.NonTrivial() // an update that went through in spite of the refusal would be visible
+			}
+			if i > 0 && c.Ops[i-1].Kind == "quote" {
+				lab("refused-call-right-after-a-quote-update")
+			}
+		}
 		if cur != prev || s.q != prevQ {
 			ctx.NonTrivial() // the edit moved a reference answer: a stale answer would be visible
 			lab("edit-changed-answers")
@@ -735,6 +763,10 @@ func hDescribe(op HOp) string {
 		return fmt.Sprintf("%s(at %d, n %d)", op.Kind, op.At, op.N)
 	case "obyte":
 		return fmt.Sprintf("obyte(output %d, byte %d := %#02x)", op.At, op.N, byte(op.U64))
+	case "refused":
+		if op.R != nil {
+			return fmt.Sprintf("refused call %s [%s]", ref.C11RefusedLabel(*op.R), ref.C11RefusedDoc(*op.R))
+		}
 	case "quote":
 		return fmt.Sprintf("quote(via %s, data=%v, %d/%d, other %d/%d)", op.Via, op.Data, op.Unit.Sat, op.Unit.Bytes, op.Unit2.Sat, op.Unit2.Bytes)
 	}
@@ -782,6 +814,7 @@ func genHOp(t *rapid.T, nin, nout int) HOp {
 		"isats", "iunlock", "iunlock", "iappend", "iprev", "sign", "sign", "addin", "rmin",
 		"quote", "quote", "touch", "clone", "none",
 		"rep", "trunc",
+		"refused", "refused",
 	}
 	op.Kind = rapid.SampledFrom(kinds).Draw(t, "kind")
 	op.At = rapid.IntRange(0, 5).Draw(t, "at")
@@ -876,6 +909,9 @@ func genHOp(t *rapid.T, nin, nout int) HOp {
 				op.Via = "unmarshal"
 			}
 		}
+	case "refused":
+		r := gen.C11Refused(t, "refused")
+		op.R = &r
 	case "rep": // element counts reach the three-byte prefix on one side only, or on both
 		total := rapid.SampledFrom([]int{251, 252, 253, 254}).Draw(t, "total")
 		if rapid.Bool().Draw(t, "side") {
@@ -891,7 +927,7 @@ func genHOp(t *rapid.T, nin, nout int) HOp {
 			op.Kind = "truncout"
 		}
 	}
-	if rapid.Bool().Draw(t, "subset") {
+	if rapid.Bool().Draw(t, "subset") && op.Kind != "refused" { // every answer is asked for after a refused call
 		op.Q = rapid.IntRange(1, qAll).Draw(t, "q")
 	}
 	return op
